@@ -55,6 +55,7 @@ func pathScript(cfg *SolveCfg, p *PathResult, qs []*Query, solver string, withMo
 	for _, q := range qs {
 		byIdx[q.ItemIdx] = q
 	}
+	single := len(qs) == 1 // non-incremental script: z3 applies its full (stronger) pipeline without push/pop
 	for i, it := range p.items {
 		if it.Kind == ItAssert {
 			sb.WriteString("(assert ")
@@ -65,6 +66,16 @@ func pathScript(cfg *SolveCfg, p *PathResult, qs []*Query, solver string, withMo
 		q, ok := byIdx[i]
 		if !ok {
 			continue
+		}
+		if single {
+			fmt.Fprintf(&sb, "(echo \"@@ %d\")\n", q.ItemIdx)
+			sb.WriteString("(assert (not ")
+			sb.WriteString(it.Ob.Goal)
+			sb.WriteString("))\n(check-sat)\n")
+			if withModel {
+				sb.WriteString("(get-model)\n")
+			}
+			break
 		}
 		sb.WriteString("(push 1)\n")
 		fmt.Fprintf(&sb, "(echo \"@@ %d\")\n", q.ItemIdx)
